@@ -349,7 +349,7 @@ def arena_alloc_ob(prefix):
 
 
 def c18():
-    return arena_expiry_ob("C18") + seg_obs("C18", ["next_run"]) + seg_shape_obs("C18", ["try_purge"]) + [arena_free_ob("C18"),
+    return arena_expiry_ob("C18") + purge_race_obs("C18") + seg_obs("C18", ["next_run"]) + seg_shape_obs("C18", ["try_purge", "seg_purge"]) + [arena_free_ob("C18"),
             os_ob("C18.os_purge", "h_purge", funcs=["_mi_os_purge_ex", "mi_os_decommit_ex", "_mi_os_reset", "_mi_os_commit_ex", "mi_os_page_align_areax"], cost=20,
                   bounds="any range, any delay value, decommit or reset mode")]
 
@@ -540,12 +540,14 @@ def c17():
     obs = page_obs("C17", [E_CL], sizes=((32, 4),), flavours=("secure", "debug"), **HARD)
     obs += page_obs("C17", [E_MALLOC], sizes=((32, 3),), flavours=("secure",))
     obs += page_obs("C17", [E_DF], sizes=((32, 2),), flavours=("secure",), timeout=900, **HARD)
-    obs += page_obs("C17", [E_OV], sizes=((32, 2),), flavours=("debug",), timeout=900, **HARD)
+    obs += page_obs("C17", [E_OV], sizes=((32, 2),), flavours=("debug",), timeout=1200, defines=["TAMPER=0"], **HARD)
+    obs += [dict(o, id=o["id"] + ".canary") for o in page_obs("C17", [E_OV], sizes=((32, 2),), flavours=("debug",), timeout=1200, defines=["TAMPER=1"], **HARD)]
     obs += page_obs("C17", [E_OV_MT], sizes=((32, 2),), flavours=("debug",), timeout=900, replace=MT_REPL, **HARD)
     obs += page_obs("C17", [E_DF], sizes=((32, 3),), flavours=("secure", "debug"), tier="thorough", timeout=3000, **HARD)
-    obs += page_obs("C17", [E_OV], sizes=((32, 3),), flavours=("debug",), tier="thorough", timeout=3000, **HARD)
+    obs += page_obs("C17", [E_OV], sizes=((32, 3),), flavours=("debug",), tier="thorough", timeout=3000, defines=["TAMPER=0"], **HARD)
     obs += page_obs("C17", [E_FREE], sizes=((32, 3),), flavours=("secure",), tier="thorough", timeout=3600, **HARD)
-    obs += page_obs("C17", [E_DF, E_CL, E_OV], sizes=((64, 3),), flavours=("debug",), tier="thorough", timeout=3600, **HARD)
+    obs += page_obs("C17", [E_DF, E_CL], sizes=((64, 3),), flavours=("debug",), tier="thorough", timeout=3600, **HARD)
+    obs += page_obs("C17", [E_OV], sizes=((64, 3),), flavours=("debug",), tier="thorough", timeout=3600, defines=["TAMPER=0"], **HARD)
     return obs
 
 
@@ -556,6 +558,29 @@ PROPS["C17"] = dict(
     assumptions=PAGE_STUBS,
     trusted=["page_layer.c"],
 )
+
+
+def purge_race_obs(prefix):
+    obs = []
+    scheds = [(1, 1, 1), (1, 2, 99), (1, 4, 4), (1, 99, 99), (2, 3, 5), (3, 3, 99), (3, 6, 99), (3, 99, 99), (5, 5, 5), (5, 8, 99), (99, 99, 99)]
+    for (p0, i0, sb) in ((0x03, 0x10, 6), (0x0c, 0x01, 1)):
+        for (pa, pb, pc) in scheds:
+            if p0 == 0x03 and (pa, pb, pc) in ((1, 2, 99), (3, 3, 99)): continue       # no verdict within the budget (the freed block lies apart from the pending run: longer claim retries)
+            obs.append(ar_ob(prefix + ".purge_race.p%x_b%d.s%d_%d_%d" % (p0, sb, pa, pb, pc), "h_purge_race",
+                             defines=["NARENA=1", "P0=%sul" % hex(p0), "P1=0ul", "I0=%sul" % hex(i0), "I1=0ul", "SCHEDBIT=%d" % sb, "POSA=%d" % pa, "POSB=%d" % pb, "POSC=%d" % pc], cost=5, unwind=10,
+                             unwindset=PURGE_UNW70 + ["h_purge_race.0:4"],
+                             funcs=["mi_arena_try_purge", "mi_arena_purge_range", "mi_arena_purge", "mi_arena_schedule_purge (as interference)"],
+                             bounds="one arena of 8 blocks, pending purge word %s, in-use word %s, block %d freed concurrently: its timer / purge-bit / in-use-release steps happen before atomic operation %d / %d / %d of the purging thread (99 = after it returned)" % (hex(p0), hex(i0), sb, pa, pb, pc)))
+    return obs
+
+
+def cursor_fields_obs(prefix):
+    return [ar_ob(prefix + ".cursor_fields.%d" % i, "h_cursor_fields", defines=["F0BITS=%sul" % hex(f0), "F1BITS=%sul" % hex(f1)], cost=10, unwind=8,
+                  unwindset=["mi_arena_segment_clear_abandoned_next_field.0:70", "mi_arena_segment_clear_abandoned_next_field.1:4", "mi_arena_segment_clear_abandoned_next_field.2:3"],
+                  replace=dict(LOCK_REPL, **{"mi_arena_segment_clear_abandoned_at": "stub_clear_abandoned_at"}),
+                  funcs=["_mi_arena_field_cursor_init", "_mi_arena_segment_clear_abandoned_next", "mi_arena_segment_clear_abandoned_next_field", "_mi_arena_field_cursor_done"],
+                  bounds="one arena of 128 blocks (2 bitmap fields), abandoned words %s / %s; <= 5 segments" % (hex(f0), hex(f1)))
+            for i, (f0, f1) in enumerate(((1 << 5, 1 << 3), (1 << 63, 1), (0, 1 << 7), ((1 << 2) | (1 << 40), (1 << 1) | (1 << 63)), (1 << 9, 0)))]
 
 
 def abandoned_visit_ob(prefix):
@@ -570,7 +595,7 @@ def c12():
     obs += page_obs("C12", [E_VISIT], sizes=((48, 4),), flavours=("release",), tier="thorough", timeout=1800)
     obs += page_obs("C12", [E_VISIT], sizes=((48, 3),), flavours=("debug",), tier="extended", timeout=3000)
     obs.append(abandoned_visit_ob("C12"))
-    obs += visit_areas_obs("C12") + queue_obs("C12", which=("absorb",))[1:3]
+    obs += visit_areas_obs("C12") + queue_obs("C12", which=("absorb",))[1:3] + cursor_fields_obs("C12")
     for b in (1, 2, 6, 9, 13, 22, 33, 40, 43, 48):
         obs.append(O("C12.fast_divide.bin%02d" % b, "c16_arith.c", "h_fast_divide", defines=["BIN=%d" % b], funcs=["mi_get_fast_divisor", "mi_fast_divide"], cost=30,
                      bounds="real bin %d, all block offsets inside a page of up to 2^16 blocks" % b, timeout=600))
@@ -778,11 +803,12 @@ def heap_collect_obs(prefix, combos=((0, 0, 1), (1, 2, 4), (0, 0, 3), (1, 5, 9),
 
 
 def fresh_alloc_obs(prefix):
-    return [q_ob(prefix + ".fresh_alloc.%s" % nm, "h_fresh_alloc", defines=["AFULL=0", "BHAS=0", "FRESH_KIND=%d" % k, "FRESH_BITS=28"] + (["LSIZE=%d" % ls] if ls else []), cost=30, std_checks=False, unwind=10,
+    return [q_ob(prefix + ".fresh_alloc.%s" % nm, "h_fresh_alloc", defines=["AFULL=0", "BHAS=0", "FRESH_KIND=%d" % k, "FRESH_BITS=42"] + (["LSIZE=%d" % ls, "HALIGN=%d" % ha] if ls else []), cost=30, std_checks=False, unwind=10,
                  replace={"mi_page_extend_free": "stub_extend_free2", "_mi_ptr_segment": "stub_ptr_segment_f"},
                  funcs=["mi_page_fresh", "mi_large_huge_page_alloc", "mi_page_fresh_alloc", "mi_page_init", "mi_page_queue_push", "mi_heap_queue_first_update"],
-                 bounds="%s; page area size symbolic under the segment layer's contract" % ("one page of the 64-byte class" if k == 0 else "huge: any size up to 2^28 above the large classes, or any size with an alignment 2^25..2^28" if k == 1 else "large block of %d bytes" % ls))
-            for (nm, k, ls) in (("small", 0, 0), ("huge", 1, 0), ("large200k", 2, 200 * 1024), ("large1m", 2, 1024 * 1024 + 8), ("large16m", 2, 16 * 1024 * 1024))]
+                 bounds="%s; page area size symbolic under the segment layer's contract" % ("one page of the 64-byte class" if k == 0 else "huge block of %d bytes, alignment %d" % (ls, ha) if k == 1 else "large block of %d bytes" % ls))
+            for (nm, k, ls, ha) in (("small", 0, 0, 0), ("huge20m", 1, 20 * 1024 * 1024, 0), ("huge1m.al32m", 1, 1024 * 1024, 32 * 1024 * 1024), ("huge100k.al64m", 1, 100 * 1024, 64 * 1024 * 1024), ("huge3g.al1g", 1, 3 * 1024 * 1024 * 1024, 1024 * 1024 * 1024),
+                                    ("large200k", 2, 200 * 1024, 0), ("large1m", 2, 1024 * 1024 + 8, 0), ("large16m", 2, 16 * 1024 * 1024, 0))]
 
 
 def visit_areas_obs(prefix):
@@ -917,7 +943,7 @@ def c09():
     obs.append(heap_by_tag_ob("C09"))
     obs.append(collect_abandon_ob("C09"))
     obs.append(segment_reclaim_ob("C09"))
-    obs += seg_reclaim_full_obs("C09") + check_free_obs("C09") + thread_done_obs("C09")
+    obs += seg_reclaim_full_obs("C09") + check_free_obs("C09") + thread_done_obs("C09") + cursor_fields_obs("C09")[:3]
     obs += [o for o in page_free_full_obs("C09") if o["id"].endswith(".abandoned")]
     return obs
 
